@@ -309,12 +309,10 @@ def file_case(f, via, mode):
 
 
 def file_cases(rng, tier):
-    # the two loaders whose scores merge_parts used to reject (fixes/C15-7, C15-8) are always there
-    yield file_case("tests/data/mei/test_parts_duration.mei", "load", "voice")
-    yield file_case("tests/data/kern/spline_splitting.krn", "load", "voice")
+    # (the scores of the two loaders that merge_parts used to reject, fixes/C15-7 and C15-8, are in corpus/C15/w8)
     yield file_case("tests/data/musicxml/test_merge_voices2.xml", "structure", "auto")   # [[[P, P]], P]
     if tier == "quick":
-        for _ in range(7):
+        for _ in range(6):
             yield file_case(rng.choice(FILES_SMALL), rng.choice(VIAS), rng.choice(MODES))
         return
     for f in FILES_SMALL:
@@ -337,7 +335,7 @@ def _finding_registered(sig):
 
 
 def cases(rng, tier):
-    n = {"quick": 85, "thorough": 3000, "search": 5000}.get(tier, 85)
+    n = {"quick": 72, "thorough": 3000, "search": 5000}.get(tier, 72)
     # deterministic block: every class in every part, every mode; the division tuples of the property text
     for mode in MODES:
         yield gen_case(rng, mode, divs=[3, 4], allclasses=True)
